@@ -3,7 +3,7 @@
 
 use super::{found, Found};
 use crate::ctx::{catch, hex, machinery_error, unhex, Ctx, Part, Tier};
-use crate::refmodel::keccak::{hash_to_point, HtpStats};
+use crate::refmodel::keccak::{hash_to_point, hash_to_point_on_stream, HtpStats};
 use falcon_rust::verif_hooks as fh;
 use rayon::prelude::*;
 use serde_json::{json, Value};
@@ -36,6 +36,83 @@ fn check_string(s: &[u8], stats: Option<&mut HtpStats>) -> Option<String> {
         return Some(format!("Falcon-512 point is not the first half of the Falcon-1024 point on {} (len {})", show, s.len()));
     }
     None
+}
+
+/// chunk streams (16-bit big-endian values) that decide what the rejection sampler sees; every family is a
+/// deviation from the default "every chunk accepted"
+pub fn scripted_streams(n: usize, thorough: bool) -> Vec<(String, Vec<u16>)> {
+    let acc = |i: usize| -> u16 { ((i as u32 * 7919 + 13) % 61445) as u16 };
+    let mut out: Vec<(String, Vec<u16>)> = vec![];
+    // constant accepted values, including the multiples of q and the largest accepted value
+    for v in [0u16, 1, 12288, 12289, 12290, 24578, 36867, 49156, 61444] {
+        out.push((format!("constant {}", v), vec![v; n]));
+    }
+    // a run of k rejected chunks before accepted chunk number p
+    let ks: Vec<usize> = if thorough { (0..=80).chain([100, 128, 255, 256, 257, 511, 512, 513, 1024, 2048, 5000]).collect() } else { (0..=20).chain([31, 32, 33, 63, 64, 65, 100, 128, 256, 512, 1024, 2048]).collect() };
+    for &k in &ks {
+        for p in [0usize, 1, n / 2, n - 1] {
+            for (rname, rv) in [("61445", [61445u16, 61445]), ("65535", [65535, 65535]), ("mixed", [61445, 65535])] {
+                if rname != "61445" && k > 40 && !thorough {
+                    continue;
+                }
+                let mut s: Vec<u16> = (0..p).map(acc).collect();
+                s.extend((0..k).map(|j| rv[j % 2]));
+                s.extend((p..n).map(acc));
+                out.push((format!("run of {} rejected ({}) before coefficient {}", k, rname, p), s));
+            }
+        }
+    }
+    // r rejected chunks spread evenly over the first n + r chunks
+    let rs: Vec<usize> = if thorough { (1..=100).chain([n / 8 - 1, n / 8, n / 8 + 1, n / 8 + 2, n / 4, n / 2, n - 1, n, n + 1, 2 * n]).collect() } else { vec![1, 2, 3, 8, 16, 32, 33, n / 16, n / 8 - 1, n / 8, n / 8 + 1, n / 8 + 2, n / 4, n / 2, n, 2 * n] };
+    for &r in &rs {
+        let total = n + r;
+        let mut s = Vec::with_capacity(total);
+        let (mut placed, mut accd) = (0usize, 0usize);
+        for i in 0..total {
+            // rejected where the running proportion asks for one
+            if placed < r && (i + 1) * r / total > placed {
+                s.push(if placed % 2 == 0 { 61445 } else { 65000 });
+                placed += 1;
+            } else {
+                s.push(acc(accd));
+                accd += 1;
+            }
+        }
+        out.push((format!("{} rejected chunks spread over the first {}", r, total), s));
+    }
+    // every m-th chunk rejected (m = 1: the first 3n chunks are all rejected)
+    for m in 1..=(if thorough { 16 } else { 8 }) {
+        let s: Vec<u16> = if m == 1 {
+            (0..4 * n).map(|i| if i < 3 * n { 65535 } else { acc(i) }).collect()
+        } else {
+            (0..(n * m).div_ceil(m - 1) + m).map(|i| if i % m == m - 1 { 61445 } else { acc(i) }).collect()
+        };
+        out.push((format!("every {}th chunk rejected", m), s));
+    }
+    out
+}
+
+fn chunks_to_bytes(c: &[u16]) -> Vec<u8> {
+    c.iter().flat_map(|v| [(v >> 8) as u8, (v & 0xff) as u8]).collect()
+}
+
+/// one scripted stream through the real hash_to_point (both degrees) against Algorithm 3 on the same stream
+fn check_stream(name: &str, chunks: &[u16], n: usize) -> Option<String> {
+    let prefix = chunks_to_bytes(chunks);
+    let msg = b"scripted";
+    let want = hash_to_point_on_stream(&prefix, msg, n, None);
+    fh::install_xof_prefix(prefix);
+    let got = catch(|| fh::hash_to_point(msg, n));
+    fh::uninstall_xof_prefix();
+    match got {
+        Err(e) => Some(format!("hash_to_point(n={}) panicked on the XOF stream [{}]: {}", n, name, e)),
+        Ok(g) => {
+            if g.len() != n {
+                return Some(format!("hash_to_point(n={}) returned {} coefficients on the XOF stream [{}]", n, g.len(), name));
+            }
+            (0..n).find(|&k| g[k] as i64 != want[k]).map(|k| format!("hash_to_point(n={})[{}] = {} but Algorithm 3 gives {} on the XOF stream [{}]", n, k, g[k], want[k], name))
+        }
+    }
 }
 
 fn merge(a: &mut HtpStats, b: &HtpStats) {
@@ -189,6 +266,37 @@ pub fn run(tier: Tier) {
         ctx.add_part(part);
     }
 
+    // the rejection sampler's environment: scripted XOF output (hook install_xof_prefix)
+    {
+        let mut part = Part::new("scripted_xof_streams", "the XOF reader of hash_to_point is made to deliver a chosen chunk stream first (then the real SHAKE-256 output): constant accepted values incl. every multiple of q; a run of k rejected chunks (61445 / 65535 / alternating) before coefficient 0, 1, n/2, n-1 for k up to 2048 (thorough 5000); r rejected chunks spread over the first n + r for r around n/16, n/8, n/4, n/2, n, 2n; every m-th chunk rejected; n = 512 and 1024; the result must be Algorithm 3 applied to the same stream");
+        // the tap must be live: a stream of zeros gives the zero point
+        fh::install_xof_prefix(vec![0u8; 4096]);
+        let z = fh::hash_to_point(b"tap", 512);
+        fh::uninstall_xof_prefix();
+        if z.iter().any(|&c| c != 0) || fh::hash_to_point(b"tap", 512).iter().all(|&c| c == 0) {
+            ctx.cap("C14: the XOF tap is not in effect (hash_to_point does not read through the hooked reader); scripted streams are skipped");
+        } else {
+            for n in [512usize, 1024] {
+                let fam = scripted_streams(n, tier.thorough());
+                let res: Vec<Option<(String, String)>> = fam.par_iter().map(|(name, ch)| check_stream(name, ch, n).map(|w| (name.clone(), w))).collect();
+                part.states += fam.len() as u64;
+                part.transitions += fam.len() as u64;
+                part.validated += fam.len() as u64;
+                let mut shown = 0;
+                for (name, w) in res.into_iter().flatten() {
+                    if shown < 6 {
+                        let class = name.split(|c: char| c.is_ascii_digit()).next().unwrap_or("").trim().to_string();
+                        ctx.violation(format!("htp-stream:n={}:{}", n, class), w, json!({"kind":"stream","n":n,"name":name}));
+                        shown += 1;
+                    }
+                }
+            }
+            part.exhaustive = true;
+            part.outcome("all equal to Algorithm 3 on the scripted stream".to_string());
+            ctx.add_part(part);
+        }
+    }
+
     ctx.set(
         "threshold_hits",
         json!({"chunks": total.chunks, "rejected": total.rejected, "chunk==61444 (largest accepted)": total.at_61444,
@@ -207,6 +315,13 @@ pub fn run(tier: Tier) {
 }
 
 pub fn replay(case: &Value) -> Result<Option<String>, String> {
+    if case.get("kind").and_then(|k| k.as_str()) == Some("stream") {
+        let n = case.get("n").and_then(|x| x.as_u64()).ok_or("n")? as usize;
+        let name = case.get("name").and_then(|x| x.as_str()).ok_or("name")?;
+        let fam = scripted_streams(n, true);
+        let (nm, ch) = fam.iter().find(|(k, _)| k == name).ok_or("stream family member not found")?;
+        return Ok(check_stream(nm, ch, n));
+    }
     if case.get("kind").and_then(|k| k.as_str()) == Some("ladder") {
         let l = case.get("len").and_then(|x| x.as_u64()).ok_or("len")? as usize;
         let s: Vec<u8> = if case.get("constant").and_then(|x| x.as_bool()).unwrap_or(true) { vec![0x5au8; l] } else { (0..l).map(|i| (i as u32).wrapping_mul(2654435761).rotate_left(7) as u8 ^ (i >> 8) as u8).collect() };
